@@ -20,6 +20,31 @@ Theorem C12_uri_hdrs : forall cap ops,
   | None => True
   end.
 Proof. exact uhdrs_history_reset. Qed.
+Theorem C12_header_block : forall hcap ccap withpv ops,
+  let new := mkhdrs_st (hdrlst_init (repeat hdr0 hcap))
+                       (if withpv : bool then Some (phvals_init (repeat pfrom0 ccap)) else None) in
+  match exec_ops obj_headers ops new with
+  | Some x => ob_reset obj_headers x = new
+  | None => True
+  end.
+Proof. exact headers_history_reset. Qed.
+Theorem C12_header_line : forall ccap withpv ops,
+  let new := mkhline hdr0 (if withpv : bool then Some (phvals_init (repeat pfrom0 ccap)) else None) in
+  match exec_ops obj_hdrline ops new with
+  | Some x => ob_reset obj_hdrline x = new
+  | None => True
+  end.
+Proof. exact hdrline_history_reset. Qed.
+(* the message: Reset keeps Buf (its length is observable), every later parse is that of a new object *)
+Theorem C12_message : forall hcap ccap ops,
+  match exec_ops obj_msg ops (msg_init 0 (repeat hdr0 hcap) (repeat pfrom0 ccap)) with
+  | Some m =>
+    msg_reset m = msg_init (m_buflen m) (repeat hdr0 hcap) (repeat pfrom0 ccap) /\
+    forall flags buf o, parse_sipmsg flags buf o (msg_reset m)
+                        = parse_sipmsg flags buf o (msg_init 0 (repeat hdr0 hcap) (repeat pfrom0 ccap))
+  | None => True
+  end.
+Proof. exact msg_history_reset. Qed.
 (* objects without caller arrays: reset is the constant new object *)
 Theorem C12_plain_objects :
   const_reset obj_fline fline0 /\ const_reset obj_callid callid0 /\ const_reset obj_cseq cseq0
